@@ -216,6 +216,13 @@ def valid(t):
     return all(valid(c) for c in t.children())
 
 
+def seq_elems():
+    z = [u8, u16, u32, u64, u128, i8, f64, bool_, char_, P('NonZeroU32'), Tup(u32, 2), Arr(u16, 3), U(Z1), U(Z2), U(Z3),
+         U(Z7), U(Z11), U(Z13), U(ZE3), U(ZE1), UNIT, U(Z4), Rg('RangeTo', u32), U(Z8, [u16]), U(Z9, [], [3]), Arr(u8, 0)]
+    d = [STR, Vec(u8), U(D1), Bx(u16), Opt(u32), U(D2, [Vec(u8)]), U(E2), Vec(U(Z1)), BOXSTR, U(E1), Bd(STR)]
+    return z, d
+
+
 def roots():
     out = []
     seen = set()
